@@ -530,7 +530,7 @@ func (nfs *Nfs) NFSPROC3_MKNOD(args nfstypes.MKNOD3args) nfstypes.MKNOD3res {
 func (nfs *Nfs) doRemove(dfh nfstypes.Nfs_fh3, name nfstypes.Filename3, isdir bool) (*fstxn.FsTxn, nfstypes.Nfsstat3) {
 	if dir.IllegalName(name) {
 		util.DPrintf(0, "Remove inval name\n")
-		return nil, nfstypes.NFS3ERR_INVAL
+		return fstxn.Begin(nfs.fsstate), nfstypes.NFS3ERR_INVAL
 	}
 	op, inodes, err := nfs.getInodesLocked(dfh, name)
 	if err != nfstypes.NFS3_OK {
